@@ -401,9 +401,208 @@ def oracle(jobs, r):
     return bad
 
 
+# --------------------------------------------------------------------------------------------
+# Deterministic exploration at the granularity of the model's actors: every transport operation of the real master /
+# worker threads (publish, next message of a subscription) waits at a gate until the controller releases that thread.
+class Gate:
+    def __init__(self):
+        self.cv = threading.Condition()
+        self.waiting = {}       # thread name -> (kind, channel / pattern)
+        self.released = None
+        self.free = False
+
+    def arrive(self, kind, what):
+        name = threading.current_thread().name
+        with self.cv:
+            if self.free:
+                return
+            self.waiting[name] = (kind, what)
+            self.cv.notify_all()
+            while self.released != name and not self.free:
+                self.cv.wait(0.2)
+            if self.released == name:
+                self.released = None
+            self.waiting.pop(name, None)
+            self.cv.notify_all()
+
+    def wait_parked(self, names, timeout=6.0):
+        end = time.time() + timeout
+        with self.cv:
+            while not all(n in self.waiting for n in names) or self.released is not None:
+                left = end - time.time()
+                if left <= 0:
+                    return False
+                self.cv.wait(min(left, 0.2))
+            return True
+
+    def release(self, name):
+        with self.cv:
+            self.released = name
+            self.cv.notify_all()
+
+    def open(self):
+        with self.cv:
+            self.free = True
+            self.cv.notify_all()
+
+
+def run_gated(b, prefix):
+    """One execution of batch b under the gate scheduler following the choice prefix; -> (observation, decisions)."""
+    L = load()
+    pg, qo, wk = L["pg"], L["qo"], L["wk"]
+    from semantiva.context_processors import ContextType
+    from semantiva.execution.executor.executor import SequentialSemantivaExecutor
+    _uniq[0] += 1
+    jobs, nw = b["jobs"], int(b.get("workers", 1))
+    events, gate = Events(), Gate()
+
+    class GatedSub:
+        def __init__(self, inner, pattern):
+            self.inner, self.pattern = inner, pattern
+
+        def __iter__(self):
+            it = iter(self.inner)
+            while True:
+                gate.arrive("next", self.pattern)
+                try:
+                    m = next(it)
+                except StopIteration:
+                    return
+                yield m
+
+        def close(self):
+            self.inner.close()
+
+    class GateTransport(L["RecTransport"]):
+        def publish(self, channel, data, context, metadata=None, require_ack=False):
+            gate.arrive("publish", channel)
+            return super().publish(channel, data, context, metadata=metadata, require_ack=require_ack)
+
+        def subscribe(self, channel, *, callback=None):
+            return GatedSub(super().subscribe(channel, callback=callback), channel)
+
+    direct = []
+    for jd in jobs:
+        try:
+            direct.append(list(pg.run_impl(jd["nodes"], jd.get("data"), jd.get("ctx", {}))))
+        except Exception as ex:  # noqa
+            direct.append(["unsupported", "direct execution: %r" % (ex,)])
+    tr = GateTransport(events)
+    orch = qo.QueueSemantivaOrchestrator(tr, stop_event=None, logger=make_logger(events, "master", _uniq[0]))
+    stop = threading.Event()
+    names = ["c15-master"] + ["c15-worker-%d" % w for w in range(nw)]
+    threads = [threading.Thread(target=orch.run_forever, daemon=True, name="c15-master")]
+    threads += [threading.Thread(target=wk.worker_loop, daemon=True, name="c15-worker-%d" % w,
+                                 args=(w, tr, SequentialSemantivaExecutor(), stop, make_logger(events, "w%d" % w, _uniq[0]), 0.001))
+                for w in range(nw)]
+    futs, cfg_objs, decisions = [], [], []
+    status = "ok"
+    t0 = time.time()
+
+    def nonempty(suffix):
+        return any(len(q) for c, (q, _l) in list(tr._queues.items()) if c.endswith(suffix))
+
+    try:
+        for t in threads:
+            t.start()
+        nxt = 0
+        for _step in range(40 * (len(jobs) + 1)):
+            if not gate.wait_parked(names):
+                status = "stall"
+                break
+            with gate.cv:
+                waiting = dict(gate.waiting)
+            enabled = []
+            if nxt < len(jobs):
+                enabled.append("enq")
+            mk = waiting["c15-master"]
+            if mk[0] == "publish" or nonempty(".status"):
+                enabled.append("c15-master")
+            elif not orch.job_queue.empty():
+                gate.release("c15-master")     # silent: nothing to receive, a job is waiting to be published
+                continue
+            for w in range(nw):
+                k = waiting["c15-worker-%d" % w]
+                if k[0] == "publish" or nonempty(".cfg"):
+                    enabled.append("c15-worker-%d" % w)
+            if not enabled:
+                break                          # quiescent
+            i = len(decisions)
+            chosen = prefix[i] if i < len(prefix) and prefix[i] in enabled else enabled[0]
+            decisions.append({"enabled": enabled, "chosen": chosen})
+            if chosen == "enq":
+                jd = jobs[nxt]
+                cfg = build_cfg(L, jd, cfg_objs)
+                cfg_objs.append(cfg)
+                ctx = ContextType({a: pg.v_impl(v) for a, v in jd.get("ctx", {}).items()})
+                events.add("enq", "client", nxt)
+                futs.append(orch.enqueue(cfg, data=pg.make_data(jd.get("data")), context=ctx, return_future=True))
+                nxt += 1
+            else:
+                gate.release(chosen)
+        else:
+            status = "too-long"
+        quiescent = status == "ok"
+    finally:
+        gate.open()
+        try:
+            orch.stop()
+        except Exception:  # noqa
+            pass
+        stop.set()
+        leaked = []
+        for t in threads:
+            t.join(4.0)
+            if t.is_alive():
+                leaked.append(t.name)
+    while len(futs) < len(jobs):        # not all jobs were enqueued (stall): pad with untouched futures
+        futs.append(CountingFuture())
+        cfg_objs.append(object())
+    out = observe(L, b, jobs, futs, cfg_objs, events.items, direct, quiescent, time.time() - t0, leaked)
+    out["status"] = status
+    return out, decisions
+
+
+def explore(job):
+    b = job["explore"]
+    deadline = time.time() + float(job.get("budget_s", 60))
+    max_execs = int(job.get("max_execs", 100000))
+    stack = [list(job.get("root", []))]
+    execs, complete, seen = [], True, set()
+    while stack:
+        if time.time() > deadline or len(execs) >= max_execs:
+            complete = False
+            break
+        prefix = stack.pop()
+        out, decs = run_gated(b, prefix)
+        chosen = [d["chosen"] for d in decs]
+        out["schedule"] = chosen
+        key = json.dumps([out["trace"], [o.get("state") for o in out["obs"]]])
+        if key in seen and not out["oracle"] and out["status"] == "ok":
+            out = {"schedule": chosen, "dup": True, "status": "ok", "oracle": []}
+        seen.add(key)
+        execs.append(out)
+        if out["status"] != "ok":
+            continue
+        new = []
+        for i, d in enumerate(decs):
+            if i >= len(prefix):
+                for alt in d["enabled"]:
+                    if alt != d["chosen"]:
+                        new.append(chosen[:i] + [alt])
+        stack.extend(reversed(new))
+    return {"executions": execs, "complete": complete}
+
+
 def main():
     job = json.load(sys.stdin)
     L = load()
+    if "explore" in job:
+        out = explore(job)
+        out["files"] = {m: os.path.realpath(L[m].__file__) for m in ("qo", "wk", "im")}
+        sys.stdout.write(json.dumps(out))
+        sys.stdout.flush()
+        os._exit(0)
     t_end = time.time() + float(job.get("budget_s", 120))
     res = []
     for b in job["batches"]:
